@@ -426,6 +426,12 @@ func (zp *ZoneParser) Next() (RR, bool) {
 				return zp.setParseError("garbage after $INCLUDE", l)
 			}
 
+			// The tokens after the file name were taken without looking at
+			// their error flag; a lexer error there must not be lost.
+			if zp.c.l.err {
+				return zp.setParseError(zp.c.l.token, zp.c.l)
+			}
+
 			if !zp.includeAllowed {
 				return zp.setParseError("$INCLUDE directive not allowed", l)
 			}
